@@ -285,6 +285,7 @@ func runC20(t *testing.T, sci interface{}) *Outcome {
 			case "restart":
 				o.Stats["fault.restart"]++
 				s.Inline(func() {
+					s.ReleaseYields()
 					s.CloseAll()
 					w.StopTransport()
 					synctest.Wait()
@@ -420,6 +421,17 @@ func runC20(t *testing.T, sci interface{}) *Outcome {
 				s.Go("admin2", func() {
 					defer func() { d2 = true }()
 					if cl, _, err := w.verified("admin2", admin.id, admin.kp); err == nil {
+						if op.Arg%4 < 2 {
+							// the interesting order: the removals start when the new pairing has just been stored
+							// (the first connection is then somewhere between storing it and answering)
+							w.StepWhen("admin2", "wait until the added pairing is stored", func() bool {
+								if d1 {
+									return true
+								}
+								e, err := w.Tr.VerifDatabase().EntityWithName(added.id)
+								return err == nil && len(e.PublicKey) > 0
+							})
+						}
 						pairingsReq(cl, 4, added)
 						if op.Arg%2 == 0 {
 							for _, c := range pairings {
